@@ -43,6 +43,7 @@ def cases(tier):
     out.append({"name": "g1_s1s1", "glens": [1], "slens": [1, 1]})
     out.append({"name": "reopen_with_groups_reordered", "glens": [1, 1], "slens": [1, 1], "reopen": True})
     out.append({"name": "g2_s1s2", "glens": [2], "slens": [1, 2]})
+    out.append({"name": "g1_s2s1", "glens": [1], "slens": [2, 1]})      # the longer subject name is recorded first
     # option combination: the aggregator's log_times flag and whether the results carry a computation time vary independently
     out.append({"name": "times_option_combination", "glens": [1, 1], "slens": [1], "times": True})
     if tier == "thorough":
